@@ -6,6 +6,9 @@ CONSTANTS
   MaxNodes = 4
   MaxList = 2
   Impl = "required"
+  Group = "normal"
+  ForceOn = FALSE
+  RestartOn = FALSE
   MaxOps = 4
   Depth = 4
 INVARIANT Emit
